@@ -292,6 +292,8 @@ func init() {
 		}
 		return nil
 	}
+	intrinsics["internal/stringslite.Clone"] = func(in *Interp, _ *frame, a []Value) Value { return a[0] }
+	intrinsics["strings.Clone"] = intrinsics["internal/stringslite.Clone"]
 	intrinsics["internal/abi.NoEscape"] = func(in *Interp, _ *frame, a []Value) Value { return a[0] }
 	intrinsics["(*strings.Builder).copyCheck"] = nop
 	intrinsics["(*strings.Builder).String"] = func(in *Interp, _ *frame, a []Value) Value {
@@ -321,6 +323,20 @@ func init() {
 		t := in.newInput("e", 64)
 		in.ex.Assume(bvCmp("bvsle", Const(64, 0), t))
 		return t
+	}
+
+	// strconv.ParseFloat on symbolic text: nondeterministic stub (arbitrary float64, or an error);
+	// the real function runs natively whenever the text is concrete.
+	symIntrinsics["strconv.ParseFloat"] = func(in *Interp, fr *frame, a []Value) Value {
+		if !anySym(a) {
+			return nil
+		}
+		in.stubs["strconv.ParseFloat(symbolic text) = arbitrary (float64, nil) or (0, error)"] = true
+		if in.ex.Choose(2, "env") == 0 {
+			return Tuple{FSym{in.newInput("e", 64)}, Iface{}}
+		}
+		err := in.call(fr, in.lookupFunc("errors", "New"), []Value{"strconv.ParseFloat: parsing <sym>: invalid syntax"})
+		return Tuple{float64(0), err}
 	}
 
 	// unicode predicates on symbolic runes: disjunction of the intervals of the host's real tables.
@@ -489,11 +505,9 @@ func (in *Interp) fmtArg(fr *frame, v Value, verb byte) (host interface{}, sym V
 		if x.S.K == SBool {
 			return in.branch(x), nil
 		}
-		c := in.concretize(x, "fmt operand")
-		if k == kInt {
-			return sext(c, x.S.W), nil
-		}
-		return c, nil
+		// formatting is not the subject: a symbolic number is rendered as a placeholder instead
+		// of forking over its values (only error/log texts are affected)
+		return "<sym>", nil
 	case FSym:
 		in.unsupported("fmt of symbolic float")
 	case []Value:
